@@ -69,7 +69,9 @@ def main():
     try:
         for p in props:
             t0 = time.time()
-            r = sh(f"cd /verif && timeout 1500 ./check {p} quick 2>&1")
+            # checks run from a snapshot of the committed /verif (so that /verif can be edited meanwhile)
+            snap = os.environ.get("VERIF_SNAP", "/verif")
+            r = sh(f"cd {snap} && timeout 1500 ./check {p} quick 2>&1")
             sigs = sorted(set(re.findall(r"what: .*\[(.*?)\]\s*$", r.stdout, re.M)))
             known = sorted(set(re.findall(r"^KNOWN-FINDING.*$", r.stdout, re.M)))
             results[p] = {"exit": r.returncode, "violation_signatures": sigs[:8], "wall_s": round(time.time() - t0, 1),
@@ -77,9 +79,10 @@ def main():
             print(f"check {p}: exit={r.returncode} sigs={sigs[:5]}")
     finally:
         sh("git -C /repo checkout -- . && git -C /repo status --porcelain")
-        sh("rm -rf /verif/replays/*")
+        snap = os.environ.get("VERIF_SNAP", "/verif")
+        sh(f"rm -rf {snap}/replays/*")
         # evidence files were rewritten by runs on a mutated tree: restore the committed ones
-        sh("cd /verif && git checkout -- evidence 2>/dev/null")
+        sh(f"cd {snap} && git checkout -- evidence 2>/dev/null")
     meta["checks"] = results
     meta["caught_by"] = [p for p, v in results.items() if v["exit"] == 1]
     out = f"/verif/seeded/{tag}"
